@@ -81,7 +81,9 @@ func hClientDo(c *http.Client, req *http.Request) (*http.Response, error) {
 		next := &http.Request{Method: "GET", URL: u, Header: req.Header.Clone()}
 		if c.CheckRedirect != nil {
 			err := c.CheckRedirect(next, via)
-			if err == http.ErrUseLastResponse {
+			// (net/http's package initialiser is not run in the engine: ErrUseLastResponse is nil there, so a nil
+			// result must not be mistaken for it)
+			if err != nil && err == http.ErrUseLastResponse {
 				return resp, nil
 			}
 			if err != nil {
